@@ -118,13 +118,19 @@ pub fn split_compressed_records(data: &[u8]) -> Vec<Record> {
             break;
         }
 
+        // A truncated file may end inside a size prefix or inside a record: the remaining bytes
+        // are returned as a final (short) record rather than read out of bounds.
+        let Some(prefix) = data.get(position..position + 4) else {
+            records.push(Record::from_slice(&data[position..]));
+            break;
+        };
+
         let mut record_size = [0; 4];
-        record_size.copy_from_slice(&data[position..position + 4]);
+        record_size.copy_from_slice(prefix);
         let record_size = i32::from_be_bytes(record_size).unsigned_abs() as usize;
 
-        records.push(Record::from_slice(
-            &data[position..position + record_size + 4],
-        ));
+        let end = (position + record_size + 4).min(data.len());
+        records.push(Record::from_slice(&data[position..end]));
         position += record_size + 4;
     }
 
